@@ -16,6 +16,8 @@ Decided:
   fe-bounds  limb-bound invariants and overflow freedom of both backends; encode (canonical reduction identity, digits, packing)
              and decode (bit 255 ignored) in both; scalar32 reduce / muladd congruent modulo L with reduced digits (sc32);
              scalar32 order test decided on all inputs; Scalar::bits / Scalar::ZERO agree
+  fe-use     32-bit backend: every call site of a field operation anywhere in the crate hands it operands built from at most
+             three TIGHT values without a carry (the contract fe-bounds proves); nobody outside fe32 touches Fe limbs
 Not decided: scalar64 Barrett arithmetic as numbers; that the canonical reduction's quotient is floor(H / p)."""
 from .. import facts as F
 from . import C12, C14, C15
@@ -63,4 +65,4 @@ def run(ctx):
         ctx.guard("select", "ge/" + tag, lambda: C15.check_select(ctx, prog, "fe64" if tag == "K0" else "fe32"))
         ctx.guard("verify", "ed25519::verify/" + tag, lambda: C14.check_verify(ctx, prog))
     ctx.trusted += ["definition-derived oracle cxsa/spec/curve.py", "ssa evaluator, limb-polynomial normal form"]
-    ctx.not_decided += ["limb bounds at the call sites of the group code for fe32 (per-operation contracts are decided by fe-bounds)", "fe32 to_bytes as a bit map (carry-based); scalar64 Barrett arithmetic as numbers"]
+    ctx.not_decided += ["fe32 to_bytes as a bit map (carry-based); scalar64 Barrett arithmetic as numbers"]
